@@ -28,12 +28,17 @@ def main():
     pid, k = sys.argv[1], sys.argv[2]
     checks = [pid]
     tier = "quick"
+    srcroot, prefix = "/tmp/wtout", ""
     for i, a in enumerate(sys.argv):
         if a == "--checks":
             checks = sys.argv[i + 1].split(",")
         if a == "--tier":
             tier = sys.argv[i + 1]
-    src = "/tmp/wtout/%s" % pid
+        if a == "--src":
+            srcroot = sys.argv[i + 1]
+        if a == "--prefix":
+            prefix = sys.argv[i + 1]
+    src = "%s/%s" % (srcroot, pid)
     patch, demo, notes = ("%s/%s%s%s" % (src, n, k, e) for n, e in (("patch", ".diff"), ("demo", ".py"), ("notes", ".json")))
     meta = {"property": pid, "variant": int(k), "author": "independent sub-agent (saw only the property text and a scratch worktree)"}
     try:
@@ -94,7 +99,7 @@ def main():
     meta["detection"] = det
     meta["caught_by"] = [c for c, d in det.items() if d["exit"] == 1]
     meta["ran"] = "tools/try_seed.py %s %s --checks %s --tier %s" % (pid, k, ",".join(checks), tier)
-    outd = os.path.join(VERIF, "seeded", "%s-%s" % (pid, k))
+    outd = os.path.join(VERIF, "seeded", "%s%s-%s" % (prefix, pid, k))
     os.makedirs(outd, exist_ok=True)
     if os.path.exists(patch):
         shutil.copy(patch, os.path.join(outd, "patch.diff"))
@@ -102,7 +107,7 @@ def main():
         shutil.copy(demo, os.path.join(outd, "demo.py"))
     with open(os.path.join(outd, "meta.json"), "w") as f:
         json.dump(meta, f, indent=1)
-    print(json.dumps({"id": "%s-%s" % (pid, k), "confirmed": meta["confirmed"], "caught_by": meta["caught_by"],
+    print(json.dumps({"id": "%s%s-%s" % (prefix, pid, k), "confirmed": meta["confirmed"], "caught_by": meta["caught_by"],
                       "detection": {c: (d["exit"], d["wall_s"]) for c, d in det.items()}, "summary": meta.get("summary", "")[:160]}))
     return 0
 
